@@ -43,6 +43,8 @@ class MiniBroker:
         self.writers: list[tuple[asyncio.StreamWriter, list[tuple[str, int]]]] = []
         self._pid = 0
         self.disconnects = 0
+        self.by_client_id: dict[str, asyncio.StreamWriter] = {}
+        self.takeovers: list[str] = []
 
     async def start(self) -> None:
         self.server = await asyncio.start_server(self._client, "127.0.0.1", 0)
@@ -88,6 +90,20 @@ class MiniBroker:
                 head, body = await self._read_packet(reader)
                 ptype = head >> 4
                 if ptype == 1:  # CONNECT
+                    try:
+                        name_len = int.from_bytes(body[:2], "big")
+                        pos = 2 + name_len + 4  # protocol name, level, flags, keep-alive
+                        id_len = int.from_bytes(body[pos:pos + 2], "big")
+                        client_id = body[pos + 2:pos + 2 + id_len].decode("utf-8", "replace")
+                    except Exception:  # noqa: BLE001
+                        client_id = ""
+                    old = self.by_client_id.get(client_id)
+                    if client_id and old is not None and old is not writer:
+                        # [MQTT-3.1.4-2] a second connection with the same client id: the existing one is disconnected
+                        self.takeovers.append(client_id)
+                        old.close()
+                    if client_id:
+                        self.by_client_id[client_id] = writer
                     writer.write(b"\x20\x02\x00\x00")
                 elif ptype == 8:  # SUBSCRIBE
                     pid = body[:2]
@@ -123,4 +139,6 @@ class MiniBroker:
             pass
         finally:
             self.writers[:] = [(w, s) for w, s in self.writers if w is not writer]
+            for key in [k for k, w in self.by_client_id.items() if w is writer]:
+                del self.by_client_id[key]
             writer.close()
